@@ -33,7 +33,9 @@ def count_ops(t):
 # accepted constant names that look like something else: a directive / mnemonic / register in another letter case, hex digits only
 HOSTILE = ['ERROR', 'Error', 'STRING', 'String', 'BYTES', 'Align', 'PACK', 'Db', 'LONGS', 'ADD', 'Li', 'NOP', 'Zero', 'RA', 'SP', 'X1', 'T0', 'a', 'x',
            'fee', 'dec', 'cafe', 'ADC', 'e', 'b0', 'xa', 'HI', 'LO', 'J', 'Ret', 'errors', 'string_', 'Offset', 'POSITION',
-           '__STACK_TOP', 'MASK__LOW', 'ANSWER__', '_x', '_', 'a_b__c', 'import_', 'lambda_x', 'class_']
+           '__STACK_TOP', 'MASK__LOW', 'ANSWER__', '_x', '_', 'a_b__c', 'import_', 'lambda_x', 'class_',
+           # names Python's own identifier rules would fold into another spelling (micro sign / Greek mu, ohm sign / Omega, a ligature) or read as an attribute
+           '\u00b5s_per_tick', '\u03bcs_per_tick', '\u2126_ohm', '\u03a9_ohm', '\ufb01rst', 'first', 'K0.scale', 'uart.BAUD']
 
 
 def value_case(asm, acc, seed, idx):
